@@ -51,9 +51,9 @@ def _neg(iv):
 _CAT_CACHE = {}
 
 
-def _category(cat):
-    if cat in _CAT_CACHE:
-        return _CAT_CACHE[cat]
+def _category(cat, ascii_only=False):
+    if (cat, ascii_only) in _CAT_CACHE:
+        return _CAT_CACHE[(cat, ascii_only)]
     name = str(cat)
     neg = 'NOT' in name
     if 'DIGIT' in name:
@@ -71,7 +71,7 @@ def _category(cat):
     iv = []
     start = None
     for i in range(MAXCP + 1):
-        ok = pred(chr(i))
+        ok = pred(chr(i)) and (i < 128 or not ascii_only)
         if ok and start is None:
             start = i
         elif not ok and start is not None:
@@ -82,7 +82,7 @@ def _category(cat):
     iv = _norm(iv)
     if neg:
         iv = _neg(iv)
-    _CAT_CACHE[cat] = iv
+    _CAT_CACHE[(cat, ascii_only)] = iv
     return iv
 
 
@@ -122,7 +122,7 @@ def _set_of(op, av, flags):
             elif o is C.RANGE:
                 iv.append((a[0], a[1]))
             elif o is C.CATEGORY:
-                iv += list(_category(a))
+                iv += list(_category(a, bool(flags & re.ASCII)))
             else:
                 raise Unsupported(f'regex set item {o}')
         iv = _case(iv, ic)
